@@ -31,6 +31,7 @@ func (verifTimeoutErr) Temporary() bool { return true }
 
 var errVerifFault = errors.New("injected fault")
 var verifCtxCanceled, verifCtxDeadline = context.Canceled, context.DeadlineExceeded
+var errVerifReset = errors.New("connection reset by peer")
 
 type verifRead struct {
 	n    int      // bytes "received" (content = data if non-nil, else left as is)
@@ -164,12 +165,15 @@ func (m *verifUDPConnMetrics) AddPacketFromTarget(status string, targetProxyByte
 func (m *verifUDPConnMetrics) RemoveNatEntry() { m.removed++ }
 
 type verifUDPMetrics struct {
+	mu      sync.Mutex
 	entries []*verifUDPConnMetrics
 }
 
 func (m *verifUDPMetrics) AddUDPNatEntry(clientAddr net.Addr, accessKey string) UDPConnMetrics {
 	cm := &verifUDPConnMetrics{clientAddr: clientAddr, accessKey: accessKey}
+	m.mu.Lock()
 	m.entries = append(m.entries, cm)
+	m.mu.Unlock()
 	return cm
 }
 
@@ -212,6 +216,7 @@ type verifStreamConn struct {
 	writesAfterClose    int
 	readsAfterCloseRead int
 	connDeadlines       []time.Time    // SetDeadline calls (read and write side together)
+	eofWithData         bool           // the last bytes of the script come together with the end-of-stream error
 	bulk                int            // after the script: this many more bytes arrive (content irrelevant)
 	onRead              func(call int) // optional hook run at the start of each Read
 	glog                *[]string      // optional cross-connection event log
@@ -255,6 +260,17 @@ func (c *verifStreamConn) Read(b []byte) (int, error) {
 			c.off = 0
 		}
 		c.bytesRead += n
+		if c.eofWithData && c.readPos >= len(c.reads) && c.bulk == 0 {
+			// io.Reader allows the final bytes and the end of the stream in one call
+			c.readsAfterEnd++
+			if c.glog != nil {
+				*c.glog = append(*c.glog, c.name+":ReadEnd")
+			}
+			if c.endErr != nil {
+				return n, c.endErr
+			}
+			return n, verifIOEOF
+		}
 		return n, nil
 	}
 	if c.bulk > 0 {
